@@ -69,6 +69,8 @@ fn main() {
     let code = match args.id.as_str() {
         "C03" => props::structural::run("C03", &args),
         "C04" => props::structural::run("C04", &args),
+        "C10" => props::dwarf::run(&args),
+        "C11" => props::codemap::run(&args),
         "C09" => props::parallel::run(&args),
         "C18" => props::replace::run(&args),
         "C01" => props::bisim::run_c01(&args),
